@@ -232,9 +232,12 @@ class Engine:
         t = time.time()
         self.stats.queries += 1
         s = self.solver
-        r = str(s.check(*cons))
-        model = s.model() if r == 'sat' else None
-        if r == 'unknown' or nonlinear and r == 'unknown':
+        if nonlinear:
+            r, model = 'unknown', None
+        else:
+            r = str(s.check(*cons))
+            model = s.model() if r == 'sat' else None
+        if r == 'unknown':
             try:
                 s2 = z3.Tactic('qfnra-nlsat').solver()
                 s2.set('timeout', self.timeout_ms)
@@ -243,6 +246,9 @@ class Engine:
                 model = s2.model() if r == 'sat' else None
             except z3.Z3Exception:
                 r = 'unknown'
+            if r == 'unknown' and nonlinear:
+                r = str(s.check(*cons))
+                model = s.model() if r == 'sat' else None
         self.stats.solver_s += time.time() - t
         if r == 'unsat':
             self.stats.unsat += 1
